@@ -82,6 +82,10 @@ class MatchResult:
     tag_sources: Dict[str, Dict] = field(default_factory=dict)  # {tag: {rule: name, pattern: expr}}
 
 
+# A string literal of the rule language: "..." or '...', backslash escapes allowed inside.
+_STRING_LITERAL = re.compile(r'"((?:[^"\\]|\\.)*)"|\'((?:[^\'\\]|\\.)*)\'')
+
+
 def calculate_specificity(rule: MerchantRule) -> Tuple[int, int, int, int]:
     """
     Calculate specificity score for a rule.
@@ -97,7 +101,7 @@ def calculate_specificity(rule: MerchantRule) -> Tuple[int, int, int, int]:
     """
     # Count functions and keywords in the expression structure only: text inside
     # string literals (e.g. contains("HOLIDAY INN")) is pattern text, not a constraint.
-    expr = re.sub(r'"[^"]*"|\'[^\']*\'', '""', rule.match_expr.lower())
+    expr = _STRING_LITERAL.sub('""', rule.match_expr.lower())
 
     # Count pattern conditions (each pattern function adds specificity)
     pattern_funcs = ['contains(', 'regex(', 'normalized(', 'startswith(', 'fuzzy(', 'anyof(']
@@ -115,11 +119,10 @@ def calculate_specificity(rule: MerchantRule) -> Tuple[int, int, int, int]:
 
 def _extract_pattern_length(match_expr: str) -> int:
     """Extract total length of pattern strings in a match expression."""
-    import re
-    # Find all quoted strings in the expression
-    strings = re.findall(r'"([^"]*)"', match_expr)
-    strings += re.findall(r"'([^']*)'", match_expr)
-    return sum(len(s) for s in strings)
+    # Scan string literals left to right, so that an apostrophe inside "..." or an
+    # escaped quote (\") does not start or end a literal of its own.
+    return sum(len(m.group(1) if m.group(1) is not None else m.group(2))
+               for m in _STRING_LITERAL.finditer(match_expr))
 
 
 class MerchantParseError(Exception):
